@@ -35,6 +35,7 @@ Classes == {
   "msg.body.hostile",  \* None mode: intact headers, body with hostile lengths (array length -2, 2^31-1)
   "opn.junkuri",       \* OPN with an unknown security policy URI
   "opn.junkcert",      \* OPN naming a real policy with a certificate that is not DER
+  "opn.cert.stranger", \* OPN naming a real policy with the RSA certificate of somebody else and a random body
   "opn.eccert",        \* OPN naming a real policy with a well-formed certificate whose key is not RSA
   "opn.nocert",        \* OPN naming a real policy with a null certificate
   "opn.hugelen",       \* OPN whose policy URI length field is 2^31-1
